@@ -884,14 +884,17 @@ fn run_history(out: &mut Out, rng: &mut Rng, work: &str, hist: usize, big: bool)
 /// (head >= tail + horizon + 60), with spends all along; observations and roots before and
 /// after compaction, after a restart, and through a reorganisation that stays inside the horizon,
 /// against a twin node that never compacts.
-fn run_long(out: &mut Out, rng: &mut Rng, work: &str, user: bool) -> BTreeMap<String, u64> {
+fn run_long(out: &mut Out, rng: &mut Rng, work: &str, user: bool, hdr_ahead: bool) -> BTreeMap<String, u64> {
 	out.raw("chain reset");
 	let mut stats: BTreeMap<String, u64> = BTreeMap::new();
 	let mut kit = Kit::new(&format!("{}/builder_long", work));
 	// `user`: the UserTesting parameters, where the cut-through horizon (70) is larger than the state
 	// sync threshold (20): compaction needs 131+ blocks and the archive header lies inside the horizon
 	let n_trunk = if user { 140u64 } else { 86u64 };
-	let fork_depth = if user { 40usize } else { 11usize };
+	// `hdr_ahead`: five more headers (bodies withheld) are known when the node compacts, the late
+	// spend patterns start 20 blocks below the tip and the fork leaves the trunk 20 blocks below it
+	let fork_depth = if user { 40usize } else if hdr_ahead { 20usize } else { 11usize };
+	let aim = if hdr_ahead { 20u64 } else { 12u64 };
 	let mut tip = 0usize;
 	let mut trunk = vec![0usize];
 	let mut spendable: Vec<(usize, u64)> = vec![(0, 0)];
@@ -904,7 +907,7 @@ fn run_long(out: &mut Out, rng: &mut Rng, work: &str, user: bool) -> BTreeMap<St
 	let mut sibling_pattern = 0u64;
 	for h in 1..=n_trunk {
 		let mut specs = vec![];
-		let nsp = if h >= 4 { rng.range(0, 2) + if h + 12 > n_trunk { 1 } else { 0 } } else { 0 };
+		let nsp = if h >= 4 { rng.range(0, 2) + if h + aim > n_trunk { 1 } else { 0 } } else { 0 };
 		for _ in 0..nsp {
 			let cands: Vec<usize> = spendable
 				.iter()
@@ -917,7 +920,7 @@ fn run_long(out: &mut Out, rng: &mut Rng, work: &str, user: bool) -> BTreeMap<St
 			}
 			// late blocks: prefer a leaf whose sibling leaf was spent at least 25 blocks ago
 			let mut pick = *rng.pick(&cands);
-			if h + 12 > n_trunk {
+			if h + aim > n_trunk {
 				let aimed: Vec<usize> = cands
 					.iter()
 					.cloned()
@@ -985,6 +988,23 @@ fn run_long(out: &mut Out, rng: &mut Rng, work: &str, user: bool) -> BTreeMap<St
 			Err(_) => break,
 		}
 	}
+	// five more blocks on the trunk (used by the `hdr` variant only)
+	let mut ahead: Vec<usize> = vec![];
+	if hdr_ahead {
+		let mut t = *trunk.last().unwrap();
+		for _ in 0..5 {
+			match kit.new_block(t, 2, &[]) {
+				Ok(id) => {
+					ahead.push(id);
+					t = id;
+				}
+				Err(e) => {
+					complain(format!("headers ahead: {}", e));
+					break;
+				}
+			}
+		}
+	}
 	for l in kit.out_lines(0) {
 		out.raw(&l);
 	}
@@ -1012,6 +1032,17 @@ fn run_long(out: &mut Out, rng: &mut Rng, work: &str, user: bool) -> BTreeMap<St
 			));
 		}
 	};
+	if hdr_ahead {
+		// their HEADERS only are delivered before the compaction
+		for id in &ahead {
+			let h = kit.blks[*id].block.header.clone();
+			let r = subj.deliver_header(&h);
+			out.line(&format!("chain hdr s0 b{}", id), &r);
+			let r = twin.deliver_header(&h);
+			out.line(&format!("chain hdr t0 b{}", id), &r);
+		}
+		*stats.entry("long:headers-ahead-of-bodies-at-compaction".into()).or_insert(0) += ahead.len() as u64;
+	}
 	check_pair(out, &subj, &twin, "before-compaction");
 	let roots_before = subj.roots();
 	let v0 = subj.c().validate(false).is_ok();
@@ -1185,6 +1216,43 @@ fn run_deep(out: &mut Out, rng: &mut Rng, work: &str) -> BTreeMap<String, u64> {
 			small.clear();
 		}
 	}
+	// a fourth tree: two same-shaped sibling blocks (one input, one output, one kernel each) that
+	// spend DIFFERENT old coinbases; the second is heavier and wins
+	let mut sib: Vec<usize> = vec![];
+	{
+		let mut cur = 0usize;
+		let mut chain5 = vec![];
+		for _ in 0..5 {
+			match kit.new_block(cur, 3, &[]) {
+				Ok(id) => {
+					cur = id;
+					chain5.push(id);
+				}
+				Err(e) => {
+					complain(format!("sibling tree: {}", e));
+					break;
+				}
+			}
+		}
+		if chain5.len() == 5 {
+			let cb = |kit: &Kit, b: usize| -> usize {
+				let o = kit.blks[b].block.outputs().iter().find(|o| o.is_coinbase()).unwrap().commitment();
+				*kit.by_commit.get(&o).unwrap()
+			};
+			let (o1, o2) = (cb(&kit, chain5[0]), cb(&kit, chain5[1]));
+			let sp = |kit: &Kit, o: usize| TxSpec { inputs: vec![o], outputs: vec![(kit.outs[o].value - 2, None)], kernel: KSpec::Plain(2) };
+			let s1 = sp(&kit, o1);
+			let s2 = sp(&kit, o2);
+			match (kit.new_block(cur, 1, &[s1]), kit.new_block(cur, 2, &[s2])) {
+				(Ok(a), Ok(b)) => {
+					sib = chain5.clone();
+					sib.push(a);
+					sib.push(b);
+				}
+				(a, b) => complain(format!("sibling tree: {:?} {:?}", a.err(), b.err())),
+			}
+		}
+	}
 	for l in kit.out_lines(0) {
 		out.raw(&l);
 	}
@@ -1320,6 +1388,33 @@ fn run_deep(out: &mut Out, rng: &mut Rng, work: &str) -> BTreeMap<String, u64> {
 				s5.head_str(&kit)
 			));
 		}
+	}
+	// (5) a reorganisation between two same-shaped siblings (the unspent SET changes, its size and
+	// its largest position do not), then work that is rolled back (a refused block, a full
+	// validation), then a restart: the reported unspent set must stay that of the winning sibling
+	if sib.len() == 7 {
+		let mut s7 = Subject::new(&format!("{}/deep_s7", work), &kit.genesis);
+		out.raw("chain new s7");
+		deliver(out, &s7, "s7", &sib, 1);
+		// a refused block on top of the winner: its genuine header with the loser's body
+		let mut twin = kit.blks[sib[5]].block.clone();
+		twin.header.prev_hash = kit.blks[sib[6]].block.hash();
+		twin.header.height += 1;
+		let r = s7.deliver_block(&twin);
+		*stats.entry(format!("deep:refused-block-after-sibling-reorg:{}", r)).or_insert(0) += 1;
+		out.line("chain obs s7", &s7.obs(&kit));
+		let v = match s7.c().validate(false) {
+			Ok(_) => "ok".to_string(),
+			Err(e) => format!("err:{}", error_class(&e)),
+		};
+		out.line("chain validate s7", &v);
+		out.line("chain obs s7", &s7.obs(&kit));
+		let rr = match s7.reopen() {
+			Ok(_) => "ok".to_string(),
+			Err(e) => format!("err:{}", e),
+		};
+		out.line("chain reopen s7", &rr);
+		out.line("chain obs s7", &s7.obs(&kit));
 	}
 	stats
 }
@@ -1940,11 +2035,12 @@ fn main() {
 	}
 	if args.get(1).map(|s| s == "long").unwrap_or(false) {
 		let user = args.get(2).map(|s| s == "user").unwrap_or(false);
+		let hdr_ahead = args.get(2).map(|s| s == "hdr").unwrap_or(false);
 		if user {
 			std::env::set_var("VERIF_CHAIN_TYPE", "user");
 			setup_globals();
 		}
-		let st = run_long(&mut out, &mut rng, &work, user);
+		let st = run_long(&mut out, &mut rng, &work, user, hdr_ahead);
 		for (k, v) in st {
 			out.raw(&format!("#STAT {}={}", k, v));
 		}
